@@ -22,3 +22,24 @@ SPEC = {
     "explanation": "self-test (pallas worktree, reverted): `upper = rop + error_term` -> `rop` and `lower = rop - error_term` -> "
                    "`rop + error_term` must give VIOLATION with a concrete op; eliding the `e2` clone must stay quiet",
 }
+
+
+def _search(run):
+    """For this property the executable Lean model IS the reference the English statement names
+    ("exactly the values computed by the reference algorithm"), so an op on which the real
+    implementation and the reference disagree is itself a concrete failing input."""
+    from lib import core
+    for b in run.broken:
+        if b.get("kind") == "correspondence" and b.get("case") is not None and b.get("stream"):
+            case = b["case"]
+            try:
+                small = core.shrink(b["stream"], case, lambda x: x.diff_at is not None)
+                case = core.CaseResult(case.cid, small)
+            except Exception:
+                pass
+            return {"stream": b["stream"], "key": "differs-from-reference-model", "detail": b["detail"], "case": case,
+                    "source": "correspondence"}
+    return None
+
+
+SPEC["search"] = _search
